@@ -1,3 +1,7 @@
 import TFV.Properties.EA
+import TFV.Properties.Heap
 #print axioms TFV.EA.C17_history
 #print axioms TFV.EA.C17_first_entry
+#print axioms TFV.Heap.C17_snapshots
+#print axioms TFV.Heap.C17_inputs
+#print axioms TFV.Heap.C17_get
